@@ -5,7 +5,7 @@ namespace ZChain.DKG
 open ZChain.Alg
 variable {F : Type} [Field F] [DecidableEq F]
 
-omit [DecidableEq F] in
+omit [Field F] [DecidableEq F] in
 theorem map_pubKey (l : List F) : l.map pubKey = l := by
   induction l with
   | nil => rfl
